@@ -199,7 +199,8 @@ func (c *Ctx) Paths(fn *ssa.Function, po PO) []*Path {
 			}
 			return !containsAny(n, po.NoInline)
 		},
-		PureFns: func(n string) bool { return containsAny(n, derivationFns) || containsAny(n, po.Pure) },
+		PureFns:  func(n string) bool { return containsAny(n, derivationFns) || containsAny(n, po.Pure) },
+		OnInline: func(f *ssa.Function) { c.FuncsAnalysed[shortName(f.String())] = true },
 	}
 	if c.Tier == "thorough" {
 		opts.MaxPaths = 2000000
@@ -417,6 +418,44 @@ type Verdict struct {
 	Violations []*Obl
 	Undecided  []*Obl
 	Known      []*Obl
+}
+
+// Verdict classifies the obligations (known findings applied); no output, no files.
+func (c *Ctx) Verdict() (viol, und, kn []*Obl) {
+	kf := loadKnown()
+	known := map[string]bool{}
+	for _, k := range kf.Findings {
+		if k.Property == c.Prop {
+			known[k.Rule+" :: "+k.Key] = true
+		}
+	}
+	for _, o := range c.Obls {
+		switch o.Status {
+		case Violated:
+			if known[o.ID()] {
+				kn = append(kn, o)
+			} else {
+				viol = append(viol, o)
+			}
+		case Undecided:
+			und = append(und, o)
+		}
+	}
+	return
+}
+
+// runProp evaluates a property on a world in-process (used for variants).
+func runProp(w *World, prop, tier string, seed int64) *Ctx {
+	c := NewCtx(w, prop, tier, seed)
+	func() {
+		defer func() {
+			if r := recover(); r != nil {
+				c.Ob(prop+".R0", "property-execution").Undecide(fmt.Sprintf("internal error: %v", r))
+			}
+		}()
+		props[prop](c)
+	}()
+	return c
 }
 
 func (c *Ctx) Finish(wall time.Duration, replayFilter string) (exit int) {
